@@ -1,6 +1,7 @@
 //! C01/C02 harness.
 //!   c01 diag [--release] <pkgdir>      build a generated package with diagnostics printed (stderr) -
 //!                                      used only to explain a build_error reported by `swayrun`
+//!   c01 ir [--release] <pkgdir> p1,p2,..   print the IR after each listed pass (debugging aid for findings)
 //!   c01 e2e <script-pkgdir>...         build each maintainers' e2e *script* package in debug and in release
 //!                                      (forc_pkg::build_with_options) and run the bytecode on fuel-vm the way
 //!                                      test/src/e2e_vm_tests/harness.rs::runs_in_vm does; one JSON line per package:
@@ -10,7 +11,16 @@ use hx::util::{guarded, quiet_panics};
 use serde_json::json;
 
 fn build(dir: &str, release: bool, terse: bool, tests: bool) -> anyhow::Result<forc_pkg::Built> {
+    build_ir(dir, release, terse, tests, vec![])
+}
+
+fn build_ir(dir: &str, release: bool, terse: bool, tests: bool, print_after: Vec<String>) -> anyhow::Result<forc_pkg::Built> {
+    let mut print = forc_pkg::PrintOpts::default();
+    if !print_after.is_empty() {
+        print.ir = sway_core::IrCli { initial: true, r#final: true, modified_only: true, print_metadata: false, passes: print_after };
+    }
     let opts = forc_pkg::BuildOpts {
+        print,
         pkg: forc_pkg::PkgOpts { path: Some(dir.to_string()), offline: true, terse, ..Default::default() },
         release,
         tests,
@@ -103,6 +113,14 @@ fn main() {
                 Ok(Err(e)) => println!("{}", json!({"pkg": dir, "status": "build_error", "error": format!("{:#}", e)})),
                 Err(p) => println!("{}", json!({"pkg": dir, "status": "panic", "error": p})),
             }
+        }
+        Some("ir") => {
+            // c01 ir [--release] <pkgdir> pass1,pass2,...   IR after each listed pass that modified it (stdout)
+            let release = args.iter().any(|a| a == "--release");
+            let rest: Vec<&String> = args[1..].iter().filter(|a| *a != "--release").collect();
+            let passes = rest[1].split(',').map(|s| s.to_string()).collect();
+            let r = guarded(|| build_ir(rest[0], release, true, true, passes).map(|_| ()));
+            println!("// build: {:?}", r.map(|x| x.map_err(|e| format!("{:#}", e))));
         }
         Some("e2e") => {
             quiet_panics();
